@@ -1098,7 +1098,7 @@ def mon_c14(sc, res):
                     t = cget(params, b"timeout")
                     if len(mine) == 1 and has_member(mine[0], b"result"):
                         elem_timeout[cget(params, b"path")] = int(t * 1e9) if isinstance(t, float) and not isinstance(t, bool) else default_ns
-                        if t is not None and (isinstance(t, bool) or not isinstance(t, float) or t < 0.001):
+                        if t is not None and (isinstance(t, bool) or not isinstance(t, float) or t < 0.001 or t * 1e9 >= 2.0 ** 64):
                             fails.append("step %d: add with invalid timeout %s was accepted" % (si, show(t)))
                     elif len(mine) != 1:
                         elem_timeout[cget(params, b"path")] = None
@@ -1120,7 +1120,8 @@ def mon_c14(sc, res):
                 params = cget(r, b"params")
                 t = cget(params, b"timeout")
                 if t is not None:
-                    if isinstance(t, bool) or not isinstance(t, float) or t < 0.001:
+                    if isinstance(t, bool) or not isinstance(t, float) or t < 0.001 or t * 1e9 >= 2.0 ** 64:
+                        # (a deadline whose nanoseconds do not fit into 64 bits cannot be armed: it must be refused)
                         fails.append("step %d: %s with invalid timeout %s was routed" % (si, cget(r, b"method").decode(), show(t)))
                     else:
                         want, src = int(t * 1e9), "request"
